@@ -4,9 +4,11 @@ Replies.tla (TLC) enumerates the complete table of replies with 0..3 varbinds ov
 noSuchObject, noSuchInstance, endOfMibView} x two names (duplicates included) x PDU type {Response, Report,
 request echoed}, checks the required mapping for totality/shape at design level, and prints the table.  Every
 entry is replayed through get and get_many on real sockets (v1, v2c, v3) and the recorded trace is judged by
-TraceSession.tla (Wire!GetResult / GetManyResult / DictMatches on the decoded reply octets)."""
+TraceSession.tla (Wire!GetResult / GetManyResult / DictMatches on the decoded reply octets).  A sample of the table goes
+through the public API as well (sync and async SnmpSession.get / get_many against a scripted agent), so that the Python
+layer of the mapping is judged by the same specification."""
 import json
-from vlib import env, tlc, trace, corpus, rawdrv, agent as ag, refcodec as rc, scripts
+from vlib import env, tlc, trace, corpus, rawdrv, agent as ag, refcodec as rc, scripts, apiscripts
 from vlib.report import Check
 from vlib.env import ToolError, SEED
 from checks.c02 import one_case
@@ -46,6 +48,39 @@ def case(rec, cfg, agent, op, entry, sid=1, variant=0):
     return first, rec.n
 
 
+def api_answer(agent, entry, variant):
+    def answer(cfg, req):
+        vbs, ptype = build(entry)
+        if ptype == "get":
+            vbs = [(n, ("null",)) for n, _ in vbs]
+        if ptype == "report" and cfg.ver == "v3":
+            rid = [req.reqid, 0, 2 ** 31 - 1, (req.reqid + 1) & 0x7FFFFFFF][variant % 4]
+            return [agent.reply(cfg, req, vbs, ptype="report", reqid=rid)]
+        return [agent.reply(cfg, req, vbs, ptype=ptype)]
+    return answer
+
+
+def api_items(entries, thorough):
+    """a sample of the table through the PUBLIC API (sync and async SnmpSession.get / get_many): the Python layer is part of the mapping"""
+    std = scripts.std_cfgs()
+    agent = ag.Agent()
+    items = []
+    step = 47 if not thorough else 3
+    for ci, cn in enumerate(["v2c", "v1", "v3-md5"]):
+        for ei, e in enumerate(entries):
+            small = len(e["vbs"]) <= 1                # the replies a real agent sends to a get: all of them, through both clients
+            if not small and (ei + ci * 7 + SEED) % step:
+                continue
+            if e["ptype"] == 0 and (small and cn != "v2c" or not small and (ei // step) % 6):
+                continue                             # echoed requests are skipped by the client: each costs one timeout, keep a few
+            for oi, op in enumerate(("get", "get_many")):
+                clients = ["sync", "async"] if small and (cn == "v2c" or thorough) else [["sync", "async"][(ei // step + oi + ci + ei) % 2]]
+                for client in clients:
+                    oids = ["1.3.6.1.4.1.9999.1.0"] if op == "get" else ["1.3.6.1.4.1.9999.1.0", "1.3.6.1.4.1.9999.2.0"]
+                    items.append((client, std[cn], op, oids, api_answer(agent, e, ei), dict(cfg=cn, op=op, entry=e, api=client, variant=ei)))
+    return items
+
+
 def run(tier):
     chk = Check("C07", tier)
     thorough = tier == "thorough"
@@ -70,8 +105,13 @@ def run(tier):
                 a, b = case(rec, std[cn], agent, op, e, variant=ei)
                 runs.append((a, b, dict(cfg=cn, op=op, entry=e)))
                 chk.case((cn, op, json.dumps(e, sort_keys=True)), nontrivial=(e["ptype"] != 0 and (len(e["vbs"]) > 0 or e["ptype"] == 8)))
+    nraw = len(runs)
+    items = api_items(entries, thorough)
+    runs += apiscripts.exchanges(rec, items)
+    for a, b, info in runs[nraw:]:
+        chk.case(("api", info["api"], info["cfg"], info["op"], json.dumps(info["entry"], sort_keys=True)), nontrivial=info["entry"]["ptype"] != 0)
     rec.close()
-    print("  %d cases, %d events" % (len(runs), rec.n), flush=True)
+    print("  %d cases (%d through the sync/async API), %d events" % (len(runs), len(runs) - nraw, rec.n), flush=True)
     v = trace.validate_parallel("TraceSession.tla", "TraceSession.cfg", rec.events, [(a, b) for a, b, _ in runs], k=12, name="c07")
     for i, r in enumerate(v["results"]):
         chk.add_tlc(r, "TraceSession(c07)#%d" % i)
@@ -83,7 +123,7 @@ def run(tier):
         a, b, info = runs[ri]
         ev = rec.events[idx]
         e = info["entry"]
-        sig = dict(op=info["op"], ver=std[info["cfg"]].ver, ptype=PTYPE[e["ptype"]], nvb=len(e["vbs"]),
+        sig = dict(op=info["op"] if "api" not in info else info["api"] + "." + info["op"], ver=std[info["cfg"]].ver, ptype=PTYPE[e["ptype"]], nvb=len(e["vbs"]),
                    kinds="+".join(sorted({x["kind"] for x in e["vbs"]})), expected=e["get"] if info["op"] == "get" else e["many"],
                    got=ev.get("exc") or ev.get("res", {}).get("t"))
         chk.violation(sig, "%s on %s reply %s: expected %s got %s" % (info["op"], info["cfg"], json.dumps(e["vbs"]), sig["expected"], sig["got"]),
@@ -99,7 +139,11 @@ def replay(path):
     d = json.load(open(path))
     info = d["replay"]["info"]
     rec = trace.Recorder("c07-replay")
-    a, b = case(rec, scripts.std_cfgs()[info["cfg"]], ag.Agent(), info["op"], info["entry"])
+    if "api" in info:
+        oids = ["1.3.6.1.4.1.9999.1.0"] if info["op"] == "get" else ["1.3.6.1.4.1.9999.1.0", "1.3.6.1.4.1.9999.2.0"]
+        apiscripts.exchanges(rec, [(info["api"], scripts.std_cfgs()[info["cfg"]], info["op"], oids, api_answer(ag.Agent(), info["entry"], info.get("variant", 0)), info)])
+    else:
+        a, b = case(rec, scripts.std_cfgs()[info["cfg"]], ag.Agent(), info["op"], info["entry"])
     v = trace.validate("TraceSession.tla", "TraceSession.cfg", rec.close())
     if v["accepted"] and not v["fails"]:
         print("replay: accepted")
